@@ -16,6 +16,9 @@ CONSTANTS
   MaxUpdates = 1
   MaxCalls = 1
   NPages = 1
+  ListenOwns = TRUE
+  ResubRace = TRUE
+  GenCheck = TRUE
   ModernUnsub = FALSE
   ForeignUnsub = TRUE
   Stepwise = TRUE
